@@ -71,8 +71,12 @@ INPUTS = [
                           M('VUSER-MIB', 'vLeaf OBJECT IDENTIFIER ::= { vRoot 7 }\nvLeaf2 OBJECT IDENTIFIER ::= { vLeaf 1 }', 'IMPORTS vRoot FROM VBASE-MIB;\n')),
     ('pairB', 'PAIR-FILE', M('VBASE-MIB', 'vRoot OBJECT IDENTIFIER ::= { enterprises 424242 }', 'IMPORTS enterprises FROM SNMPv2-SMI;\n') +
                           M('VUSER-MIB', 'vLeaf OBJECT IDENTIFIER ::= { vRoot 7 }\nvLeaf2 OBJECT IDENTIFIER ::= { vLeaf 1 }', 'IMPORTS vRoot FROM VBASE-MIB;\n')),
+    # the same text as 'rev', generated with another template: options of one call must not stick to the instance
+    ('revTpl', 'REV-MIB', M('REV-MIB', MI % ('revMib', '200001100000Z', 71) + '\n' + TABLE.replace('enterprises 9', 'revMib 9'), IMP)),
 ]
 INPUT_BY = {k: (n, t) for k, n, t in INPUTS}
+# options handed to the code generator for an input (pysnmp generator kind only: the template ships with that backend)
+GEN_OPTIONS = {'revTpl': {'dstTemplate': 'pysnmp/managed-objects-instances.j2'}}
 KINDS = ['parser', 'parserV2', 'symtable', 'json', 'pysnmp', 'compiler', 'sameast']
 
 
@@ -201,7 +205,7 @@ class Instance(object):
                     out.append(['SYM', mi.name, str(mi.revision), list(mi.imported), mibs.digest(sorted((a, repr(b)) for a, b in tab.items()))])
                     continue
                 cg = self.obj if k in ('json', 'pysnmp') else JsonCodeGen()
-                mi, text_ = cg.genCode(ast, st, genTexts=True)
+                mi, text_ = cg.genCode(ast, st, genTexts=True, **(GEN_OPTIONS.get(key, {}) if k == 'pysnmp' else {}))
                 raws.append((mi, text_))
                 out.append(None)
             except Exception as exc:
